@@ -104,6 +104,9 @@ def check_table(agg, kind, nkeys, form, keys, revs, rev_form, na_last):
     before = obs(t)
     by_arg = by[0] if (nkeys == 1 and rev_form == "scalar") else by
     rev_arg = revs[0] if rev_form == "scalar" else list(revs)
+    if VARIANT[0] % 2 and rev_form != "scalar":      # sequence arguments may be lists or tuples
+        by_arg, rev_arg = tuple(by_arg), tuple(rev_arg)
+        case["argument_form"] = "tuples"
     agg.evals += 1
     agg.transitions += 1
     site = f"table.sort_by.{form}"
